@@ -110,7 +110,7 @@ PROPS = {
         "rule": "a real RocksDB filled through filter_block with generated blocks (lock/type scripts from a pool sharing code hash, hash type and args prefixes incl. "
                 "trailing 0x00 / 0xff bytes; several cells per block; spends), queried through BlockFilterRpcImpl::{get_cells, get_transactions, get_cells_capacity} "
                 "with exact / shortened / extended / empty args search keys, both orders, limits 1,2,3,5,1000, all five filters with random (also empty and inverted) "
-                "ranges; every walk follows last_cursor to the end, each page is one case compared with Model/Query.v on the raw key dump; oracle: pages concatenated = "
+                "ranges - empty ([0,0), [a,a)), inverted and lower-end ([0,1)) ranges are strata of their own, and half of the filtered queries carry exactly ONE of the five filters; every walk follows last_cursor to the end, each page is one case compared with Model/Query.v on the raw key dump; oracle: pages concatenated = "
                 "the matching entries of the dump exactly once in key order, capacity = sum over get_cells + stored tip; distinct = distinct (query, cursor, dump)",
         "assumptions": ["RocksDB iteration order = bytewise key order; snapshot isolation trusted", "matching = the stored key starts with the search prefix (as ckb-indexer)"],
         "trusted_base": ["modelled: build_query_options, build_filter_options, get_cells, get_transactions (grouped and ungrouped), get_cells_capacity; key layout read from the dump"],
@@ -161,7 +161,10 @@ PROPS = {
     },
     "C06": {
         "ops": [("c06", "RunC06", {"quick": 60, "thorough": 1200}), ("fh", "RunFH", {"quick": 240, "thorough": 4000})],
-        "rule": "op fh: BlockFilterHashes messages (authentic ranges at every position relative to the finalized / cached check points and to what is stored, "
+        "rule": "op c06 extra scenarios: download order (a pending record straddling block 255/256 and 511/512 whose blocks form a spend chain, bodies delivered shuffled), "
+                "delayed downloads (answers held until two records are pending, the index judged when the first is completed), long batches with an undecodable tail; "
+                "op fh: peers that announced more than they proved, a forged cached interior with the genuine check point hash at its end (known finding); "
+                "op fh: BlockFilterHashes messages (authentic ranges at every position relative to the finalized / cached check points and to what is stored, "
                 "overlaps, shorter re-sends, wrong parent / hash, other branch, boundary start numbers, unproven senders) against Model/HashesUpdate.v: the per-peer "
                 "and the cached filter hashes only grow at their end, anchored at finalized check points; "
                 "whole-client worlds (light-client + filter + sync handlers over one store): chains of 38..64 blocks with transaction bodies, real block filters and filter "
@@ -204,7 +207,10 @@ PROPS = {
     },
     "C08": {
         "ops": [("c08", "RunC08", {"quick": 6, "thorough": 60})],
-        "rule": "generated sync histories on a whole client (first-run initialisation, handshake / tip update, fork switch with rollback, set_scripts all / partial / delete, "
+        "rule": "per six histories three are targeted (pending records above the fork point and a fork switch that really rolls back: last-N 4, the new tip 7 blocks ahead, "
+                "3 blocks deep; variants: records only pending / abandoned blocks already indexed / plus a partial set_scripts that rewinds filter progress below the fork point) "
+                "and three generated; the peer is a full node that also serves blocks of the abandoned branch by hash; "
+                "generated sync histories on a whole client (first-run initialisation, handshake / tip update, fork switch with rollback, set_scripts all / partial / delete, "
                 "filter batches, block proofs and downloads with indexing); the crash-free run counts the database writes of every operation through the guarded hook in "
                 "storage.rs; then for every operation and every write boundary in it (quick: at most 6 per operation, thorough: all) a fresh client re-runs the history, "
                 "unwinds before that write, is restarted from the store alone and keeps syncing with the honest peer until quiet; the store must open, nothing may abort, "
